@@ -19,9 +19,9 @@ import math
 import numpy as np
 
 PROP = "C10"
-N = {"quick": 25, "thorough": 2000}
+N = {"quick": 25, "thorough": 800}
 WORKERS = {"quick": 4, "thorough": 16}
-TIMEOUT = {"quick": 300, "thorough": 2400}
+TIMEOUT = {"quick": 300, "thorough": 3300}
 CASE_TIMEOUT = 120.0
 RULE = ("failure scripts over the nonlinear solves of a run (natural / diverge at iteration "
         "1-3 / stall until max_iterations / forced convergence at iteration j), followed by a "
@@ -425,7 +425,7 @@ def generate(rng, tier, i):
         else:
             r = rng.random()
             script.append(["nat"] if r < 0.5 else ["conv", int(rng.integers(1, max_it + 1))])
-    default = ["nat"] if rng.random() < 0.5 else ["conv", int(rng.integers(1, 3))]
+    default = ["nat"] if rng.random() < 0.3 else ["conv", int(rng.integers(1, 3))]
     cs, fr = [(0.5, [1]), (0.5, [0]), (0.5, [0, 1]), (0.25, [1]), (0.5, []), (0.25, [0])][
         int(rng.integers(0, 6))]
     return _case(tm, script, default=default, ts_depth=int(rng.integers(1, 4)),
